@@ -141,14 +141,18 @@ Proof.
 Qed.
 
 (* a delivery never raises: the handler argument of a written frame is >= 0 *)
-Lemma recv_never_raises s pn elic t d dels ok : Inv s -> wf_op s (Recv pn elic t d dels ok) ->
+Lemma recv_never_raises0 s pn elic t d dels ok : Inv0 s -> wf_op s (Recv pn elic t d dels ok) ->
   exists s', recv s pn elic t d dels ok = Ok s'.
 Proof.
-  intros [I _] (Hp & Hd). unfold recv.
+  intros I (Hp & Hd). unfold recv.
   destruct (delivers_ok dels (aq s)) as [q E].
   { intros h Hh. destruct (Hd h Hh) as [q Hq]. destruct (i_frames _ I q h Hq). lia. }
   rewrite E. cbn. eauto.
 Qed.
+
+Lemma recv_never_raises s pn elic t d dels ok : Inv s -> wf_op s (Recv pn elic t d dels ok) ->
+  exists s', recv s pn elic t d dels ok = Ok s'.
+Proof. intros [I _]. apply recv_never_raises0. exact I. Qed.
 
 (* ---- the writer -------------------------------------------------------------------------------- *)
 Lemma w_chunks_flatten cs : forall cap data r, w_chunks cap data cs = Ok r ->
